@@ -155,6 +155,20 @@ func corpus() []caseT {
 		"open 0 1 "+defOpts, "put 1 "+hexOf(pat(40, 1)), "put 2 "+hexOf(pat(33, 2)), "sync", "put 3 cc", "close",
 		"open 0 0 "+defOpts, "put 1 "+hexOf(pat(20, 7)), "del 2", "sync", "crashat 3", "open 0 0 "+defOpts, "get 1", "put 4 dd", "defrag 1", "crashat 6",
 		"open 1 0 "+defOpts, "get 3", "put 5 ee", "close", "crashat 4", "open 0 0 "+defOpts, "get 5", "get 1", "get 2")
+	// KNOWN FINDING flag-change-not-durable (the audit's two scripts): a flag change is not written to disk. Hide a synced
+	// record, Sync, Close, NewDBExt: it is shown again; hide + forced defrag (persisted), reopen, un-hide through a walk
+	// answer, Close, NewDBExt: hidden again. The reference (ref.go) holds the store to "flag word after NewDBExt = flag word
+	// at the record's last persist" and reports the difference from the in-memory map under the known key.
+	add("flag-change-not-durable-hide", true,
+		"open 0 1 "+defOpts, "put 1 aa", "sync", "flags 1 1", "browse -", "sync", "close", "open 0 1 "+defOpts, "browse -", "get 1")
+	add("flag-change-not-durable-show", true,
+		"open 0 1 "+defOpts, "put 1 aa", "flags 1 1", "defrag 1", "close", "open 0 1 "+defOpts, "browse -", "browseall 1:16", "browse -",
+		"close", "open 0 1 "+defOpts, "browse -")
+	// the same flag changes followed by something that persists the record: no difference from the map after the reopen
+	add("flag-change-then-persisted", true,
+		"open 0 1 "+defOpts, "put 1 aa", "put 2 bb", "sync", "flags 1 1", "put 1 aa", "flags 1 1", "browse 2:1", "defrag 1", "close",
+		"open 0 0 "+defOpts, "browse -", "put 1 dd", "browse 1:0,2:16", "put 2 bb", "flags 2 16", "close", "open 1 1 "+defOpts, "browse -",
+		"flags 1 1", "put 2 cc", "close", "open 0 1 "+defOpts, "browse -")
 	// more than 1 MiB of data: bufio's buffer overflows inside defrag (a write reaches the file before Flush)
 	big := []string{"open 0 1 50 300 100 100"}
 	for i := 0; i < 18; i++ {
